@@ -76,24 +76,38 @@ def _run(ctx, lap):
         "non-completion (cancel, timeout, livelock) is not a violation of C05; it is reported as drift")
 
     # ------------------------------------------------------------------ R1 safety, exhaustive
-    if qk:
-        cfg(sd, "r1.cfg", shapes=q(["branch2", "dupleaf"]), caps="1, 3", budgets="1")
-        ctx.tlc(sd, "MC_TrieSync", "r1.cfg", timeout=900)
-    else:
-        cfg(sd, "r1.cfg", shapes=q(["leaf", "branch2", "dupleaf", "slot16"]), caps="1, 3", budgets="1")
-        r = ctx.tlc(sd, "MC_TrieSync", "r1.cfg", timeout=3000, coverage=True)
-        never = {"Poison", "DeliverAllHonest"}
-        zero = sorted(set(r.coverage_zero) - never)
-        if r.ok and zero:
-            ctx.broken.append("vacuity guard: actions never taken in the exhaustive run: %s" % zero)
-        ctx.cov(coverage_guard="actions with zero coverage (expected only %s): %s" % (sorted(never), sorted(set(r.coverage_zero))))
-        # larger DAGs with sharing, resumption and the other trie, honest interleavings only + 1 adversary move
-        cfg(sd, "r1b.cfg", shapes=q(["ext", "deep"]), caps="1, 2", budgets="0", faults='{"cancel", "timeout"}')
-        ctx.tlc(sd, "MC_TrieSync", "r1b.cfg", timeout=3000)
+    LAZY = '{"lazy", "cancel", "timeout"}'
+    # (a) lazy environment = every delivery schedule of valid nodes; both syncers, all resumption DBs
+    cfg(sd, "r1a.cfg", shapes=q(["leaf", "branch2", "dupleaf"] if qk else ["leaf", "branch2", "dupleaf", "ext", "slot16"]),
+        caps="1, 3", budgets="0", faults=LAZY)
+    ra = ctx.tlc(sd, "MC_TrieSync", "r1a.cfg", timeout=3000, coverage=not qk)
+    # (b) the double list syncer on the larger layouts (shared sub-tries, hard-cap shape, slot-16 leaf)
+    cfg(sd, "r1b.cfg", shapes=q(["ext", "deep", "cap", "slot16"] + ([] if qk else ["wide"])), caps="1, 2" if qk else "1, 2, 3",
+        algos=q(["double"]), budgets="0", faults=LAZY)
+    rb = ctx.tlc(sd, "MC_TrieSync", "r1b.cfg", timeout=3000, coverage=not qk)
+    # (c) explicit environment: cache, requests in flight, honest answers in any order, 1 (thorough: 2) adversary
+    #     moves out of deliver-anything / evict / lose, cancellation and timeout
+    cfg(sd, "r1c.cfg", shapes=q(["branch2"] if qk else ["leaf", "branch2", "dupleaf"]), caps="1, 3", budgets="1")
+    rc = ctx.tlc(sd, "MC_TrieSync", "r1c.cfg", timeout=3000, coverage=not qk)
+    if not qk:
+        # (d) trieSyncer on the hard-cap shape
+        cfg(sd, "r1d.cfg", shapes=q(["cap"]), caps="1, 2", algos=q(["single"]), budgets="0", faults=LAZY, initdbs="NoResume")
+        rd = ctx.tlc(sd, "MC_TrieSync", "r1d.cfg", timeout=3000, coverage=True)
+        # vacuity guard: every action of the specification is taken in at least one exhaustive run
+        runs = [r for r in (ra, rb, rc, rd) if r.ok]
+        if len(runs) == 4:
+            never = set(runs[0].coverage_zero)
+            for r in runs[1:]:
+                never &= set(r.coverage_zero)
+            expected = {"Poison", "DeliverAllHonest"}
+            if never - expected:
+                ctx.broken.append("vacuity guard: actions never taken in any exhaustive run: %s" % sorted(never - expected))
+            ctx.cov(coverage_guard="actions with zero coverage in all exhaustive runs: %s (expected at most %s)"
+                    % (sorted(never), sorted(expected)))
 
     lap("R1 safety")
     # sensitivity: if the cache is not content-addressed the invariants must break (otherwise they are vacuous)
-    cfg(sd, "poison.cfg", shapes=q(["branch2"]), caps="3", budgets="1", threats='"poison"', faults="{}",
+    cfg(sd, "poison.cfg", shapes=q(["branch2"]), caps="3", budgets="0", threats='"poison"', faults='{"lazy"}',
         initdbs="NoResume", rest="VIEW cvars\nINVARIANTS Inv_C05_Complete Inv_C05_OwnHash Inv_C05_Recreate")
     p = ctx.tlc(sd, "MC_TrieSync", "poison.cfg", timeout=600, count=False, allow=("invariant",))
     if p.ok:
@@ -124,7 +138,7 @@ def _run(ctx, lap):
     # ------------------------------------------------------------------ R2: TLC schedules on the real syncers
     exe = ctx.go_build("vh-triesync")
     lap("go build")
-    allshapes = q(["leaf", "branch2", "ext", "dupleaf", "deep", "slot16"])
+    allshapes = q(["leaf", "branch2", "ext", "dupleaf", "deep", "cap", "wide", "slot16"])
     cfg(sd, "sim.cfg", spec="GenSpec", shapes=allshapes, caps="1, 2, 3", log="LogAppend", depth=140,
         faults='{"evict", "lose"}, {"cancel", "evict", "lose"}', budgets="2, 4, 8", rest="ACTION_CONSTRAINT EmitFull")
     beh = ctx.path("sim.ndjson")
